@@ -74,8 +74,11 @@ Proof.
   - cbn [orb]. intros H. right. now apply under_shape.
 Qed.
 
+Lemma at_or_under_refl a : at_or_under a a = true.
+Proof. unfold at_or_under. now rewrite beq_refl. Qed.
+
 Lemma move_entry_cases a b q n :
-  move_entry a b (q, n) = (q, n)
+  (at_or_under a q = false /\ move_entry a b (q, n) = (q, n))
   \/ (q = a /\ move_entry a b (q, n) = (b, n))
   \/ exists a' r, q = a' ++ sl :: r /\ move_entry a b (q, n) = (b ++ sl :: r, n) /\ (a' = a \/ (a = root /\ a' = [])).
 Proof.
@@ -86,12 +89,12 @@ Proof.
 Qed.
 
 Lemma rename_shape g a b g' : rename g a b = FOk g' ->
-  g' = g \/ exists g'', incl g'' g /\ g' = map (move_entry a b) g''.
+  (g' = g /\ a = b) \/ exists g'', incl g'' g /\ g' = map (move_entry a b) g''.
 Proof.
   unfold rename. destruct (lstat g a) as [na|]; [|discriminate].
   destruct (negb (is_dir g (pathdir b))); [discriminate|].
   destruct (at_or_under a b).
-  - destruct (beq a b); [|discriminate]. intros H. injection H as <-. now left.
+  - destruct (beq a b) eqn:Eab; [|discriminate]. apply beq_true in Eab. intros H. injection H as <-. now left.
   - intros H. right.
     assert (F : forall P, incl (filter P g) g) by (intros P x Hx; now apply filter_In in Hx as [? _]).
     destruct (lstat g b) as [[|x|t]|].
@@ -107,10 +110,10 @@ Lemma rename_in g a b g' : rename g a b = FOk g' -> forall q' n, In (q', n) g' -
   exists q, In (q, n) g /\
     (q' = q \/ (q = a /\ q' = b) \/ exists a' r, q = a' ++ sl :: r /\ q' = b ++ sl :: r).
 Proof.
-  intros H q' n Hin. destruct (rename_shape _ _ _ _ H) as [->|(g'' & Hinc & ->)].
+  intros H q' n Hin. destruct (rename_shape _ _ _ _ H) as [[-> _]|(g'' & Hinc & ->)].
   - exists q'. auto.
   - apply in_map_iff in Hin as ([q m] & Hm & Hq). apply Hinc in Hq.
-    destruct (move_entry_cases a b q m) as [E|[(-> & E)|(a' & r & -> & E & _)]]; rewrite E in Hm; injection Hm as <- <-.
+    destruct (move_entry_cases a b q m) as [[_ E]|[(-> & E)|(a' & r & -> & E & _)]]; rewrite E in Hm; injection Hm as <- <-.
     + exists q. auto.
     + exists a. auto.
     + exists (a' ++ sl :: r). split; [exact Hq|]. right. right. now exists a', r.
